@@ -126,6 +126,13 @@ class DeliveryMonitor(Monitor):
                         known = True
                         exp.append(("check", mid, u["pt"]))
                 got = [x for x in seen if x[1] == mid]
+                if got != exp and sc.get("own_streams") and not known:
+                    # strategies on streams of their own: the market object may exist thanks to the OTHER stream, so the
+                    # closing update that passes this strategy's filters closes it (alone it has no market to close)
+                    alt = exp + [("closed", mid, market["updates"][j]["pt"]) for j in exp_idx if market["updates"][j]["st"] == "CLOSED"]
+                    if got == alt:
+                        pr["c14.closed_callback_for_market_known_through_another_stream"] += 1
+                        got = exp
                 if got != exp:
                     missing = [x for x in exp if x not in got]
                     extra = [x for x in got if x not in exp]
